@@ -199,6 +199,36 @@ def check_stream(res, kind, names, stream, two_cuts=False, fast=False):
     return repr(exp)
 
 
+def check_two_receivers(res, kind, names_a, stream_a, names_b, stream_b):
+    """Two receivers alive in ONE process (two adapters), fed in turns byte by byte / in small chunks: each must deliver
+    what its OWN stream contains (nothing a receiver remembers may be shared between objects)."""
+    tail = LUBA_TAIL if kind == "luba" else SCI_SENTINEL
+    fa, fb = stream_a + tail, stream_b + tail
+    (ea, aside_a), (eb, aside_b) = ref_items(kind, fa), ref_items(kind, fb)
+    if aside_a or aside_b:
+        return
+    for step in (1, 2, 3):
+        ra, rb = Rx(kind), Rx(kind)
+        ia = ib = 0
+        while ia < len(fa) or ib < len(fb):
+            if ia < len(fa):
+                ra.feed([fa[ia:ia + step]])
+                ia += step
+            if ib < len(fb):
+                rb.feed([fb[ib:ib + 1]])
+                ib += 1
+        res["transitions"] += len(fa) + len(fb)
+        for who, rx, exp, names, stream in (("first", ra, ea, names_a, stream_a), ("second", rb, eb, names_b, stream_b)):
+            got = rx.items()
+            if got != exp or rx.exc is not None:
+                which = [k for k in exp if got.get(k) != exp[k]]
+                add_violation(res, f"C19:{kind}:two-receivers-interfere",
+                              f"two {kind} receivers fed in turns ({step} / 1 bytes): the {who} one ({names}) delivers {[got.get(k) for k in which]}, "
+                              f"its own stream contains {[exp[k] for k in which]}; exception {rx.exc!r}",
+                              {"kind": kind, "tokens": list(names_a), "stream": stream_a.hex(), "other": stream_b.hex(), "other_tokens": list(names_b)})
+    observe(res, f"two_receiver_runs_{kind}")
+
+
 # ----------------------------------------------------------------------------- shards
 
 def shards(tier):
@@ -261,6 +291,11 @@ def _run(shard, res):
             for nm in names:
                 outs.add(check_stream(res, "luba", [nm], ALL[nm], two_cuts=nm in T))
                 res["evaluations"] += 1
+            tn = list(T)
+            for a in tn:
+                for b in tn[::2]:
+                    check_two_receivers(res, "luba", [a], ALL[a] + ALL[tn[0]], [b], ALL[b])
+                    res["evaluations"] += 1
         elif k == "luba2":
             for a in names[shard[1]:shard[2]]:
                 for b in names:
@@ -299,6 +334,10 @@ def _run(shard, res):
             for nm in names:
                 outs.add(check_stream(res, "sci", [nm], S[nm], two_cuts=True))
                 res["evaluations"] += 1
+            for a in names:
+                for b in names[::3]:
+                    check_two_receivers(res, "sci", [a], S[a] + S[names[0]], [b], S[b])
+                    res["evaluations"] += 1
         elif k == "sci2":
             for a in names[shard[1]:shard[2]]:
                 for b in names:
@@ -328,7 +367,10 @@ def replay(case):
     loop = VLoop()
     loop.enter()
     try:
-        check_stream(res, case["kind"], case["tokens"], bytes.fromhex(case["stream"]), two_cuts=len(case["stream"]) < 40)
+        if "other" in case:
+            check_two_receivers(res, case["kind"], case["tokens"], bytes.fromhex(case["stream"]), case["other_tokens"], bytes.fromhex(case["other"]))
+        else:
+            check_stream(res, case["kind"], case["tokens"], bytes.fromhex(case["stream"]), two_cuts=len(case["stream"]) < 40)
     finally:
         loop.shutdown()
     return res["violations"]
